@@ -41,7 +41,7 @@ def config(tier):
 def plan(tier, seed):
   q = tier == 'quick'
   jobs = []
-  n = 7 if q else 84
+  n = 7 if q else 56
   for i in range(n):
     for p in range(3):
       jobs.append({'kind': 'model', 'seed': seed, 'idx': i, 'pipeline': p,
@@ -55,7 +55,7 @@ def plan(tier, seed):
 
 
 def floors(tier):
-  k = 1 if tier == 'quick' else 10
+  k = 1 if tier == 'quick' else 7
   f = {}
   for p in ('generalized', 'spring', 'positional'):
     f['ev:gradient_finite:' + p] = 18 * k
